@@ -46,7 +46,7 @@ def seams():
     only be intercepted under its name in ``cli``; if the repository implements
     it in Python instead, that implementation is left in place and runs for
     real on the simulated file system through its own module's ``os``."""
-    m = {cli_mod: ["open", "os"], file_format: ["open"]}
+    m = {cli_mod: ["open", "os"], file_format: ["open", "os"]}
     if cli_mod.makedirs is os.makedirs:
         m[cli_mod] = ["open", "os", "makedirs"]
     else:
@@ -604,7 +604,7 @@ from vc2_data_tables import BaseVideoFormats, ColorDifferenceSamplingFormats, Pi
 from sim import workloads as W  # noqa: E402
 from sim.clichan import h_read_raw, raw_sizes  # noqa: E402
 
-C23_SEAMS = {compare_mod: ["open", "os"], file_format: ["open"]}
+C23_SEAMS = {compare_mod: ["open", "os"], file_format: ["open", "os"]}
 
 
 def c23_vp(fmt):
